@@ -28,7 +28,20 @@ def build_tool(name):
         _sync_harness()
         out = os.path.join(BUILD, "bin", name)
         os.makedirs(os.path.dirname(out), exist_ok=True)
-        run(["go", "build", "-tags", "verif", "-o", out, "./cmd/" + name], cwd=HW, timeout=900)
+        p = run(["go", "build", "-tags", "verif", "-o", out, "./cmd/" + name], cwd=HW, timeout=900, check=False)
+        if p.returncode != 0:
+            # a handler file that no longer compiles against the working tree must not take the other properties' handlers
+            # down with it: retry without the offending files (their handlers then answer "unknown function")
+            import re
+            err = (p.stdout + p.stderr).decode("latin1")
+            bad = sorted(set(re.findall(r"cmd/%s/(\w+)\.go:" % name, err)) - {"main"})
+            if not bad:
+                raise BuildError("go build %s failed:\n%s" % (name, err[-3000:]))
+            tags = "verif," + ",".join("no_" + b for b in bad)
+            log("harness files excluded because they do not compile against /repo:", bad)
+            p2 = run(["go", "build", "-tags", tags, "-o", out, "./cmd/" + name], cwd=HW, timeout=900, check=False)
+            if p2.returncode != 0:
+                raise BuildError("go build %s failed:\n%s" % (name, (p2.stdout + p2.stderr).decode("latin1")[-3000:]))
         return out
 
 
